@@ -111,15 +111,18 @@ Definition create_col (t:name) (c:col) (vt:vtypes)
 Definition lookup_cols (tb:table) (names:list name) : list col := somes (map (find_col tb) names).
 
 (* writeCreateSQLForATable *)
+Definition create_col_step (t:name) (acc:list (name*sqlty) * list name * list (name*(name*name)) * vtypes) (c:col)
+    : list (name*sqlty) * list name * list (name*(name*name)) * vtypes :=
+  let '(defs, pks, fks, vt) := acc in
+  let '(d, fk, vt1) := create_col t c vt in
+  (defs ++ [d], (if cpk c then pks ++ [cname c] else pks),
+   (match fk with Some f => fks ++ [f] | None => fks end), vt1).
+
+Definition ordered_cols (ck:order_kind) (tb:table) : list col :=
+  lookup_cols tb (order_names ck (map (fun c => (cname c, cline c)) (tcols tb))).
+
 Definition create_table (ck:order_kind) (tb:table) (vt:vtypes) : ddl * vtypes :=
-  let ordered := lookup_cols tb (order_names ck (map (fun c => (cname c, cline c)) (tcols tb))) in
-  let '(defs, pks, fks, vt') :=
-    fold_left (fun (acc:list (name*sqlty) * list name * list (name*(name*name)) * vtypes) c =>
-                 let '(defs, pks, fks, vt) := acc in
-                 let '(d, fk, vt1) := create_col (tname tb) c vt in
-                 (defs ++ [d], (if cpk c then pks ++ [cname c] else pks),
-                  (match fk with Some f => fks ++ [f] | None => fks end), vt1))
-              ordered ([], [], [], vt) in
+  let '(defs, pks, fks, vt') := fold_left (create_col_step (tname tb)) (ordered_cols ck tb) ([], [], [], vt) in
   (CreateTable (tname tb) defs pks fks, vt').
 
 Definition levels_sorted (bd:list (N * list name)) : list (N * list name) :=
@@ -128,15 +131,17 @@ Definition levels_sorted (bd:list (N * list name)) : list (N * list name) :=
 Definition table_line (m:model) (t:name) : N := match find_table m t with Some tb => tline tb | None => 0%N end.
 
 (* GenerateDatabaseScriptCreate *)
+Definition create_table_step (ck:order_kind) (m:model) (acc:vtypes * list ddl) (t:name) : vtypes * list ddl :=
+  match find_table m t with
+  | Some tb => let '(d, vt') := create_table ck tb (fst acc) in (vt', snd acc ++ [d])
+  | None => acc
+  end.
+Definition level_names (tk:order_kind) (m:model) (lv:N * list name) : list name :=
+  order_names tk (map (fun t => (t, table_line m t)) (snd lv)).
+Definition create_level_step (tk ck:order_kind) (m:model) (acc:vtypes * list ddl) (lv:N * list name) : vtypes * list ddl :=
+  fold_left (create_table_step ck m) (level_names tk m lv) acc.
 Definition create_from (tk ck:order_kind) (m:model) (st:dstate) : list ddl :=
-  let emit_level (acc:vtypes * list ddl) (lv:N * list name) :=
-    let names := order_names tk (map (fun t => (t, table_line m t)) (snd lv)) in
-    fold_left (fun (acc:vtypes * list ddl) t =>
-                 match find_table m t with
-                 | Some tb => let '(d, vt') := create_table ck tb (fst acc) in (vt', snd acc ++ [d])
-                 | None => acc
-                 end) names acc in
-  snd (fold_left emit_level (levels_sorted (bydepth st)) ([], [])).
+  snd (fold_left (create_level_step tk ck m) (levels_sorted (bydepth st)) ([], [])).
 
 Definition create (tk ck:order_kind) (fuel:nat) (ord:nat -> list name -> list name) (m:model) : outcome (list ddl) :=
   match depth_map fuel ord m with
@@ -148,7 +153,7 @@ Definition create (tk ck:order_kind) (fuel:nat) (ord:nat -> list name -> list na
 Definition sort_names (l:list name) : list name := sort_by Pos.leb l.
 
 (* writeModifySQLForAColumn: statements, primaryKeys', visitedAttributes', (primaryKeyChanged, isPrimaryKeyOld) *)
-Definition modify_col (t:name) (oc nc:col) (pks:list name) (vt:vtypes)
+Definition modify_col (cfg:dcfg) (t:name) (oc nc:col) (pks:list name) (vt:vtypes)
     : list ddl * list name * vtypes * bool * bool :=
   let c := cname nc in
   let pks' := if cpk nc then pks ++ [c] else pks in
@@ -159,7 +164,13 @@ Definition modify_col (t:name) (oc nc:col) (pks:list name) (vt:vtypes)
         let dt := vt_get vt (rt, rc) in
         match cref oc with
         | None => ([AlterType t c dt; AddFK t c rt rc], dt)
-        | Some _ => ([], dt)                       (* both references: nothing is emitted, whatever the targets *)
+        | Some (ot, oc') =>
+            match cfg_refref cfg with
+            | RefRefRetarget =>
+                if negb (key_eqb (ot, oc') (rt, rc)) then ([DropFK t c; AlterType t c dt; AddFK t c rt rc], dt)
+                else ([], dt)
+            | _ => ([], dt)                      (* both references: nothing is emitted, whatever the targets *)
+            end
         end
     | None =>
         let dt := col_pg_type nc in
@@ -168,68 +179,78 @@ Definition modify_col (t:name) (oc nc:col) (pks:list name) (vt:vtypes)
           | Some _ => ([DropFK t c], TEmpty)
           | None => ([], col_pg_type oc)
           end in
-        if negb (sqlty_eqb dt dtOld) then (out0 ++ [AlterType t c dt], dt)
-        else if negb (Bool.eqb (cauto nc) (cauto oc)) then
-          if cauto nc
-          then (out0 ++ [CreateSeq t c; AlterType t c dt; SetDefaultSeq t c; OwnSeq t c; SetValSeq t c], bigint_ty)
-          else (out0 ++ [AlterType t c dt], dt)
-        else (out0, dt)
+        let '(out1, dt1) :=
+          if negb (sqlty_eqb dt dtOld) then (out0 ++ [AlterType t c dt], dt)
+          else if negb (Bool.eqb (cauto nc) (cauto oc)) then
+            if cauto nc
+            then (out0 ++ [CreateSeq t c; AlterType t c dt; SetDefaultSeq t c; OwnSeq t c; SetValSeq t c], bigint_ty)
+            else (out0 ++ [AlterType t c dt], dt)
+          else (out0, dt) in
+        (out1, match cfg_autovt cfg with AutoVtBigint => if cauto nc then bigint_ty else dt1 | _ => dt1 end)
     end in
   (out, pks', vt_set vt (t, c) dt, changed, cpk oc).
 
 (* writeModifySQLForATable *)
-Definition modify_table (nt ot:table) (vt:vtypes) : list ddl * vtypes :=
+Definition mt_drop_step (nt ot:table) (acc:bool * bool * list ddl) (c:name) : bool * bool * list ddl :=
+  let '(ch, ex, dr) := acc in
+  match find_col nt c, find_col ot c with
+  | None, Some oc => ((ch || cpk oc)%bool, (ex || cpk oc)%bool, dr ++ [DropColumn (tname nt) c])
+  | _, _ => acc
+  end.
+
+Definition mt_col_step (cfg:dcfg) (nt ot:table) (acc:list ddl * list name * vtypes * bool * bool) (c:name)
+    : list ddl * list name * vtypes * bool * bool :=
+  let t := tname nt in
+  let '(out, pks, vt, ch, ex) := acc in
+  match find_col nt c with
+  | None => acc
+  | Some nc =>
+      match find_col ot c with
+      | None =>
+          let '(d, fk, vt1) := create_col t nc vt in
+          let pks1 := if cpk nc then pks ++ [c] else pks in
+          let fkst := match fk with Some (_, (rt, rc)) => [AddFK t c rt rc] | None => [] end in
+          (out ++ [AddColumn t c (snd d)] ++ fkst, pks1, vt1, (ch || cpk nc)%bool, ex)
+      | Some oc =>
+          let '(o, pks1, vt1, chc, wasold) := modify_col cfg t oc nc pks vt in
+          (out ++ o, pks1, vt1, (ch || chc)%bool, (ex || wasold)%bool)
+      end
+  end.
+
+Definition pk_add_allowed (cfg:dcfg) (pks:list name) : bool :=
+  match cfg_pkadd cfg with PkNonEmpty => match pks with [] => false | _ => true end | _ => true end.
+
+Definition modify_table (cfg:dcfg) (nt ot:table) (vt:vtypes) : list ddl * vtypes :=
   let t := tname nt in
   let oldnames := sort_names (map cname (tcols ot)) in
   let newnames := sort_names (map cname (tcols nt)) in
-  let '(changed0, existed0, drops) :=
-    fold_left (fun (acc:bool * bool * list ddl) c =>
-                 let '(ch, ex, dr) := acc in
-                 match find_col nt c, find_col ot c with
-                 | None, Some oc => ((ch || cpk oc)%bool, (ex || cpk oc)%bool, dr ++ [DropColumn t c])
-                 | _, _ => acc
-                 end) oldnames (false, false, []) in
-  let '(out, pks, vt', changed, existed) :=
-    fold_left (fun (acc:list ddl * list name * vtypes * bool * bool) c =>
-                 let '(out, pks, vt, ch, ex) := acc in
-                 match find_col nt c with
-                 | None => acc
-                 | Some nc =>
-                     match find_col ot c with
-                     | None =>
-                         let '(d, fk, vt1) := create_col t nc vt in
-                         let pks1 := if cpk nc then pks ++ [c] else pks in
-                         let fkst := match fk with Some (_, (rt, rc)) => [AddFK t c rt rc] | None => [] end in
-                         (out ++ [AddColumn t c (snd d)] ++ fkst, pks1, vt1, (ch || cpk nc)%bool, ex)
-                     | Some oc =>
-                         let '(o, pks1, vt1, chc, wasold) := modify_col t oc nc pks vt in
-                         (out ++ o, pks1, vt1, (ch || chc)%bool, (ex || wasold)%bool)
-                     end
-                 end) newnames ([], [], vt, changed0, existed0) in
+  let '(changed0, existed0, drops) := fold_left (mt_drop_step nt ot) oldnames (false, false, []) in
+  let '(out, pks, vt', changed, existed) := fold_left (mt_col_step cfg nt ot) newnames ([], [], vt, changed0, existed0) in
   (out ++ (if (existed && changed)%bool then [DropPK t] else []) ++ drops
-       ++ (if changed then [AddPK t pks] else []), vt').
+       ++ (if (changed && pk_add_allowed cfg pks)%bool then [AddPK t pks] else []), vt').
 
 (* findAddedDeletedRetainedTables + generateDatabaseScriptModify: new depth levels ascending, names sorted *)
-Definition delta_from (ck:order_kind) (old new:model) (stn:dstate) : list ddl :=
-  let emit_level (acc:vtypes * list ddl) (lv:N * list name) :=
-    fold_left (fun (acc:vtypes * list ddl) t =>
-                 match find_table new t with
-                 | None => acc
-                 | Some nt =>
-                     match find_table old t with
-                     | Some ot => let '(o, vt') := modify_table nt ot (fst acc) in (vt', snd acc ++ o)
-                     | None => let '(d, vt') := create_table ck nt (fst acc) in (vt', snd acc ++ [d])
-                     end
-                 end) (sort_names (snd lv)) acc in
-  snd (fold_left emit_level (levels_sorted (bydepth stn)) ([], [])).
+Definition delta_table_step (cfg:dcfg) (ck:order_kind) (old new:model) (acc:vtypes * list ddl) (t:name) : vtypes * list ddl :=
+  match find_table new t with
+  | None => acc
+  | Some nt =>
+      match find_table old t with
+      | Some ot => let '(o, vt') := modify_table cfg nt ot (fst acc) in (vt', snd acc ++ o)
+      | None => let '(d, vt') := create_table ck nt (fst acc) in (vt', snd acc ++ [d])
+      end
+  end.
+Definition delta_level_step (cfg:dcfg) (ck:order_kind) (old new:model) (acc:vtypes * list ddl) (lv:N * list name) : vtypes * list ddl :=
+  fold_left (delta_table_step cfg ck old new) (sort_names (snd lv)) acc.
+Definition delta_from (cfg:dcfg) (ck:order_kind) (old new:model) (stn:dstate) : list ddl :=
+  snd (fold_left (delta_level_step cfg ck old new) (levels_sorted (bydepth stn)) ([], [])).
 
 (* ProcessModSysls (app present in both versions): both depth maps are computed first *)
-Definition delta (ck:order_kind) (fuel:nat) (ord:nat -> list name -> list name) (old new:model) : outcome (list ddl) :=
+Definition delta (cfg:dcfg) (ck:order_kind) (fuel:nat) (ord:nat -> list name -> list name) (old new:model) : outcome (list ddl) :=
   match depth_map fuel ord old with
   | OutOfFuel => OutOfFuel
   | Ok _ =>
       match depth_map fuel ord new with
       | OutOfFuel => OutOfFuel
-      | Ok stn => Ok (delta_from ck old new stn)
+      | Ok stn => Ok (delta_from cfg ck old new stn)
       end
   end.
